@@ -805,9 +805,7 @@ Section Sim.
       eexists _, st1, Hh1. split; [intros T HT; cbn [Eval.evalE]; rewrite (E1 T HT); reflexivity|].
       split; [exact Hle1|split; [exact Hg1|split; [apply (ok_closed _ _ _ Hok1)|]]].
       intros w Hw. destruct (as_number v) as [n| | | |]; try discriminate.
-      unfold factorial_val in Hw. destruct (_ && _); [|discriminate].
-      destruct (_ =? _)%Z; [destruct release; inversion Hw; exact I|].
-      destruct (_ <=? _)%Z; inversion Hw; exact I.
+      unfold factorial_val in Hw. destruct (_ && _); [|discriminate]. inversion Hw; exact I.
     - (* ESpread *)
       destruct IHe as [IH _]. cbn [free_vars] in Hc.
       destruct (step e bound st Hf oi IH Hok Hn Hc Hb) as (r & st1 & Hh1 & E1 & Hle1 & Hg1 & Hok1 & Hr1).
